@@ -61,6 +61,10 @@ type Contract struct {
 	Acquires    []string
 	Releases    []string
 	Instances   []string
+	// split v lo .. hi: the function is verified once per integer value of parameter v (complete: an obligation says that
+	// the precondition confines v to lo..hi)
+	SplitVar       string
+	SplitLo, SplitHi int
 	Known       []KnownClause
 	OverflowOK  bool // "overflow assumed": machine arithmetic treated as mathematical in this function (listed)
 	NoInline    bool
@@ -148,7 +152,7 @@ var itemKeywords = map[string]bool{"spec": true, "lemma": true, "axiom": true, "
 
 var clauseKeywords = map[string]bool{"mode": true, "instances": true, "requires": true, "ensures": true, "modifies": true,
 	"pure": true, "trusted": true, "holds": true, "acquires": true, "releases": true, "decreases": true, "case": true, "use": true,
-	"local": true, "overflow": true, "known": true, "noinline": true, "inline": true, "hint": true, "prop": true, "unchecked": true}
+	"local": true, "split": true, "overflow": true, "known": true, "noinline": true, "inline": true, "hint": true, "prop": true, "unchecked": true}
 
 func firstWord(s string) string {
 	s = strings.TrimSpace(s)
@@ -464,6 +468,17 @@ func ParseContractText(data, path, pkg string) (*ContractFile, error) {
 			cur.Acquires = append(cur.Acquires, strings.Fields(strings.ReplaceAll(rest, ",", " "))...)
 		case w == "releases":
 			cur.Releases = append(cur.Releases, strings.Fields(strings.ReplaceAll(rest, ",", " "))...)
+		case w == "split":
+			f := strings.Fields(rest)
+			if len(f) != 4 || f[2] != ".." {
+				return nil, fail("split <parameter> <lo> .. <hi>")
+			}
+			lo, err1 := strconv.Atoi(f[1])
+			hi, err2 := strconv.Atoi(f[3])
+			if err1 != nil || err2 != nil || hi < lo || hi-lo > 64 {
+				return nil, fail("split <parameter> <lo> .. <hi> with at most 65 integer values")
+			}
+			cur.SplitVar, cur.SplitLo, cur.SplitHi = f[0], lo, hi
 		case w == "overflow":
 			cur.OverflowOK = true
 		case w == "noinline":
